@@ -132,6 +132,33 @@ CLAIMS['C17'] = dict(
     technique="Lean 4 proof (acceptance implies schema equality) + differential check over type pairs and generated containers",
     design_ref="§5 C17")
 
+CLAIMS['C11'] = dict(
+    text=("Kernel-checked theorems: C11_schedule_independent / C11_same_value / C11_same_error - for EVERY type of the "
+          "universe, every stream, every chunk pattern and every placement of transient Interrupted results, "
+          "deserialize_reader over the scripted reader returns the slice decoder's value or its very error and stops "
+          "exactly where the slice decoder stops (nothing beyond the value is consumed); C11_whole_input (from_reader/"
+          "try_from_reader agree with from_slice, the probe reads past exactly the end). Proof: closed forms of the "
+          "read_exact loop and of the byte-vector loop over a scripted read (induction on remaining bytes + pending "
+          "interrupts) and a reader-simulation theorem by induction over the universe. Differential run: scripted "
+          "readers (explicit compositions, 1-byte, cyclic patterns, interrupts, a hard failure at every offset with 7 "
+          "kinds, >1 MiB byte vectors in odd chunks), three reader entry points, std and no_std io; oracle: equals "
+          "the slice result, failures inside the value come back unchanged, failures beyond it are invisible. "
+          "Partial: the hard-failure clauses are tied by oracle + correspondence, not yet by theorem."),
+    technique="Lean 4 proof (loop closed forms + reader simulation by induction over the universe) + differential check with scripted readers",
+    design_ref="§5 C11")
+CLAIMS['C12'] = dict(
+    text=("Model: the serializer as a trace of write_all calls (the Rust code never inspects its writer) run against "
+          "a scripted writer through the write_all loop, against &mut [u8], and against the length-only writer. "
+          "Kernel-checked theorems: C12_object_length(_ok) (object_length = length of the encoding, same refusals), "
+          "runTraceFixed_eq / C12_fixed_buffer (a buffer that is large enough is filled with exactly the encoding, a "
+          "smaller one receives its first cap bytes and WriteZero; never a panic). Differential run: every value x "
+          "chunk patterns x interrupts x a stop (Ok(0) or hard failure, 7 kinds) at EVERY offset 0..len x fixed "
+          "buffers of EVERY capacity 0..len+1 x object_length, std and no_std io; oracle: delivered bytes are the "
+          "first k bytes of the encoding and the error is unchanged. Partial: the scripted-writer prefix theorem is "
+          "not yet proved (tied by the differential run)."),
+    technique="Lean 4 proof (trace semantics; closed forms for fixed buffers and the length writer) + differential check with scripted writers",
+    design_ref="§5 C12")
+
 NOT_YET = {
 }
 
